@@ -11,6 +11,10 @@ from .naming import _sanitize_user_name
 _REPR_ROWS_DEFAULT = 12  # Global default for total rows shown (head+tail)
 MAX_HEAD_COLS = 5
 
+# Marker for the truncation row. Compared by identity: comparing elements with
+# == '...' breaks for values whose __eq__ does not return a bool (nested vectors).
+_ELLIPSIS = object()
+
 
 def set_repr_rows(n: int | None):
 	"""Set the default number of rows shown in Table.__repr__.
@@ -76,14 +80,14 @@ def _format_column(col, max_preview: int | None = None) -> List[str]:
 	# Truncate with symmetric preview
 	vals = col._underlying
 	if len(vals) > max_preview * 2:
-		preview = list(vals[:max_preview]) + ['...'] + list(vals[-max_preview:])
+		preview = list(vals[:max_preview]) + [_ELLIPSIS] + list(vals[-max_preview:])
 	else:
 		preview = list(vals)
 
 	# Type-sensitive formatting
 	out = []
 	for v in preview:
-		if v == '...':
+		if v is _ELLIPSIS:
 			out.append('...')
 		elif v is None:
 			out.append('None')
